@@ -71,6 +71,16 @@ ROWS = {
          "DESIGN.md §3.2 spec/ref, §7 C12",
          "master keys and contexts seeded pseudo-random; two independent references",
          "executable TLA+ reference evaluated by TLC; three-way differential replay"),
+ "C05": ("exploration",
+         "spec/ref/X25519.tla is an executable transcription of the RFC 7748 ladder (clamping, bit-255 masking, non-canonical reduction) pinned to the RFC vectors; TLC evaluates it on the complete low-order table, u in {0,1,2,3,5,9,p-1,p,p+1,p+9,2^255-1} with and without the top bit, RFC vectors and pseudo-random encodings; Kx.tla states DH commutativity, the beforenm and key-exchange terms, Mirror and ZeroRefused and prints the role x peer-class table; dryoc = TLA+ = libsodium on the vectors, dryoc = libsodium on 20k (thorough 1M) uniformly random pairs, the 1000-step RFC iteration, beforenm/precalc keys, and session keys per table row through classic and object API",
+         "DESIGN.md §3.2 Kx, spec/ref, §7 C05",
+         "all 2^512 inputs covered by structure (special table) plus seeded sampling; curve arithmetic in curve25519-dalek checked end to end",
+         "executable TLA+ reference evaluated by TLC + term-level protocol spec; three-way differential replay"),
+ "C13": ("exploration",
+         "Kx.tla gives the derivation term of every seeded constructor (box: SHA-512(seed)[0..32]; kx: BLAKE2b-32(seed); Ed25519->X25519: clamp(SHA-512(seed)[0..32]) and the Montgomery map) and checks ConvertedPairConsistent; the harness interprets those terms with libsodium primitives and compares dryoc (classic and object API) for box seeds of every length 0..128, 300 seeds for kx/sign/conversion, public keys recomputed from unclamped secrets, password-derived key pairs",
+         "DESIGN.md §3.2 Kx, §7 C13",
+         "libsodium as reference (its own function where it accepts the input, its primitives composed per the spec's term otherwise); seeds seeded pseudo-random",
+         "term-level TLA+ spec checked by TLC; differential replay against libsodium"),
 }
 NOT_YET = "check not built yet (work in progress; see DESIGN.md section 7)"
 
